@@ -136,12 +136,17 @@ func (c *lruCache) Peek(key []byte) (value interface{}, ok bool) {
 // Returns whether found and whether an eviction occurred.
 func (c *lruCache) HasOrAdd(key []byte, value interface{}, sizeInBytes int) (has, added bool) {
 	has, _ = c.cache.AddSizedIfMissing(string(key), value, int64(sizeInBytes))
+	if has {
+		return true, false
+	}
 
-	if !has {
+	// The underlying cache might have refused the item (e.g. negative size in bytes)
+	added = c.cache.Contains(string(key))
+	if added {
 		c.callAddedDataHandlers(key, value)
 	}
 
-	return has, !has
+	return false, added
 }
 
 func (c *lruCache) callAddedDataHandlers(key []byte, value interface{}) {
